@@ -507,4 +507,152 @@ theorem c15b_bitvec_roundtrip (bs : List Bool) : (BVec.fromBools bs).toBools = .
         List.getElem?_eq_none (by omega)]; rfl
 
 
+/-- number of set bit positions below `n` -/
+def onesBelow (data : List Nat) (n : Nat) : Nat := (List.range n).countP (bitmapNull data)
+
+theorem onesBelow_succ (data : List Nat) (n : Nat) :
+    onesBelow data (n + 1) = onesBelow data n + (if bitmapNull data n then 1 else 0) := by
+  unfold onesBelow
+  rw [List.range_succ, List.countP_append]
+  simp [List.countP_cons]
+
+theorem onesBelow_zero (data : List Nat) : onesBelow data 0 = 0 := rfl
+
+theorem onesBelow_mono (data : List Nat) (a b : Nat) (h : a ≤ b) : onesBelow data a ≤ onesBelow data b := by
+  induction b with
+  | zero => have : a = 0 := by omega
+            subst this; exact Nat.le_refl _
+  | succ b ih =>
+    by_cases hab : a = b + 1
+    · subst hab; exact Nat.le_refl _
+    · have := ih (by omega)
+      rw [onesBelow_succ]; omega
+
+/-- `popF n w` counts the set bits among the lowest `n` -/
+theorem popF_eq (n w : Nat) : popF n w = (List.range n).countP (fun j => w.testBit j) := by
+  induction n generalizing w with
+  | zero => rfl
+  | succ n ih =>
+    unfold popF
+    rw [ih, List.range_succ_eq_map, List.countP_cons, List.countP_map]
+    have : ((fun j => w.testBit j) ∘ Nat.succ) = (fun j => (w / 2).testBit j) := by
+      funext j; simp [Nat.testBit_succ]
+    rw [this]
+    have h0 : w.testBit 0 = decide (w % 2 = 1) := Nat.testBit_zero w
+    rw [h0]
+    rcases Nat.mod_two_eq_zero_or_one w with h | h <;> simp [h] <;> omega
+
+/-- ones among the `r ≤ 64` lowest bits of word `k` = the popcount of the masked word -/
+theorem popcount_mask (w r : Nat) (hr : r ≤ 64) :
+    popcount (w &&& (2 ^ r - 1)) = (List.range r).countP (fun j => w.testBit j) := by
+  unfold popcount
+  rw [popF_eq]
+  have h64 : List.range 64 = List.range r ++ List.range' r (64 - r) := by
+    have e : 64 = r + (64 - r) := by omega
+    rw [List.range_eq_range', List.range_eq_range']
+    conv => lhs; rw [e]
+    rw [← List.range'_append_1]; simp
+  rw [h64, List.countP_append]
+  have h2 : (List.range' r (64 - r)).countP (fun j => (w &&& (2 ^ r - 1)).testBit j) = 0 := by
+    rw [List.countP_eq_zero]
+    intro j hj
+    have := (List.mem_range'_1.mp hj).1
+    simp [Nat.testBit_and, Nat.testBit_two_pow_sub_one]; omega
+  rw [h2, Nat.add_zero]
+  apply List.countP_congr
+  intro j hj
+  have := List.mem_range.mp hj
+  simp [Nat.testBit_and, Nat.testBit_two_pow_sub_one, this]
+
+theorem popcount_eq (w : Nat) : popcount w = (List.range 64).countP (fun j => w.testBit j) := by
+  unfold popcount; exact popF_eq 64 w
+
+theorem bitmapNull_word (data : List Nat) (k j : Nat) (hj : j < 64) :
+    bitmapNull data (64 * k + j) = (data.getD k 0).testBit j := by
+  unfold bitmapNull
+  have h1 : (64 * k + j) / 64 = k := by omega
+  have h2 : (64 * k + j) % 64 = j := by omega
+  rw [h1, h2]
+  cases h : data[k]? with
+  | none => simp [List.getD, h]
+  | some w => simp [List.getD, h, getBit_eq_testBit]
+
+theorem onesBelow_add (data : List Nat) (a b : Nat) :
+    onesBelow data (a + b) = onesBelow data a + (List.range b).countP (fun j => bitmapNull data (a + j)) := by
+  induction b with
+  | zero => simp [onesBelow_zero]
+  | succ b ih =>
+    rw [← Nat.add_assoc, onesBelow_succ, ih, List.range_succ, List.countP_append]
+    simp [List.countP_cons]; omega
+
+/-- ones below `64k + r` (`r ≤ 64`) = ones below `64k` + popcount of the masked word `k` -/
+theorem onesBelow_word (data : List Nat) (k r : Nat) (hr : r ≤ 64) :
+    onesBelow data (64 * k + r) = onesBelow data (64 * k) + popcount (data.getD k 0 &&& (2 ^ r - 1)) := by
+  rw [onesBelow_add, popcount_mask _ _ hr]
+  congr 1
+  apply List.countP_congr
+  intro j hj
+  have := List.mem_range.mp hj
+  rw [bitmapNull_word data k j (by omega)]
+
+theorem onesBelow_fullword (data : List Nat) (k : Nat) :
+    onesBelow data (64 * (k + 1)) = onesBelow data (64 * k) + popcount (data.getD k 0) := by
+  have := onesBelow_word data k 64 (Nat.le_refl _)
+  rw [show 64 * (k + 1) = 64 * k + 64 by omega, this, popcount_mask _ _ (Nat.le_refl _), popcount_eq]
+
+/-- the sum of the popcounts of the first `k` words = ones below `64k` -/
+theorem sum_popcount_take (data : List Nat) (k : Nat) (hk : k ≤ data.length) :
+    ((data.take k).map popcount).sum = onesBelow data (64 * k) := by
+  induction k with
+  | zero => simp [onesBelow_zero]
+  | succ k ih =>
+    have hk' : k < data.length := by omega
+    rw [List.take_add_one, List.map_append, List.sum_append, ih (by omega), onesBelow_fullword]
+    simp [List.getElem?_eq_getElem hk', List.getD]
+
+/-- `count_ones` of a well-formed vector = number of set bits below `len` (padding is masked) -/
+theorem countOnes_wf (v : BVec) (hw : v.WF) : v.countOnes = .ok (onesBelow v.data v.len) := by
+  obtain ⟨data, len⟩ := v
+  obtain ⟨hlen, _⟩ := hw
+  simp only at hlen
+  unfold BVec.countOnes
+  simp only
+  by_cases h0 : len = 0
+  · rw [if_pos h0, h0, onesBelow_zero]
+  · rw [if_neg h0]
+    unfold nWords at hlen
+    obtain ⟨k, r, hk, hr64⟩ : ∃ k r, len = 64 * k + r ∧ r < 64 :=
+      ⟨len / 64, len % 64, by omega, by omega⟩
+    have e1 : len / 64 = k := by omega
+    have e2 : len % 64 = r := by omega
+    rw [e1, e2]
+    rw [if_neg (by omega), sum_popcount_take _ _ (by omega)]
+    by_cases hr : r > 0
+    · have : k < data.length := by omega
+      rw [if_pos ⟨hr, this⟩, hk, onesBelow_word _ _ _ (by omega)]
+    · rw [if_neg (by omega)]
+      have : r = 0 := by omega
+      rw [hk, this, Nat.add_zero]
+
+theorem onesBelow_fromBools (bs : List Bool) (n : Nat) :
+    onesBelow (BVec.fromBools bs).data n = (bs.take n).count true := by
+  induction n with
+  | zero => simp [onesBelow_zero]
+  | succ n ih =>
+    rw [onesBelow_succ, ih, bitmapNull_fromBools]
+    by_cases hn : n < bs.length
+    · rw [List.take_add_one, List.count_append]
+      simp [List.getD, List.getElem?_eq_getElem hn]
+      cases bs[n] <;> simp
+    · rw [List.take_of_length_le (by omega), List.take_of_length_le (by omega)]
+      simp [List.getD, List.getElem?_eq_none (Nat.le_of_not_lt hn)]
+
+/-- F: `count_ones(from_bools(bs))` is the number of `true`s in `bs`. -/
+theorem c15b_bitvec_count_ones (bs : List Bool) :
+    (BVec.fromBools bs).countOnes = .ok (bs.count true) := by
+  rw [countOnes_wf _ (fromBools_wf bs), onesBelow_fromBools]
+  have hl : (BVec.fromBools bs).len = bs.length := rfl
+  rw [hl, List.take_length]
+
+
 end Grafeo.Codec2
